@@ -165,6 +165,9 @@ def build (w h : Nat) (f : Nat → Nat → GCell) : Grid :=
 def fill (w h : Nat) (c : GCell) : Grid :=
   { w := w, h := h, cells := ⟨List.replicate (w * h) c⟩, hsize := by simp }
 
+/-- placeholder while a grid is being updated in place (see `Term.putNarrowAt`) -/
+def empty : Grid := { w := 0, h := 0, cells := #[], hsize := rfl }
+
 /-- cell `c` turned into a blank that keeps its pen (the surviving half of a destroyed wide glyph) -/
 def halfBlank (c : GCell) (stamp : Nat) : GCell := { c with runes := [], cont := false, stamp := stamp }
 
@@ -402,9 +405,15 @@ def doWrap (t : Term) : Term :=
     (if t.modes.autoMargin then { t.lineFeed with cx := 0 } else { t with pendingWrap := false })
   else t
 
+/- Performance note for the compiled driver: the grid is taken out of the terminal (`{ t with grid := Grid.empty }`)
+   before it is updated, so that the cell array is uniquely referenced and `Array.setIfInBounds` works in place;
+   logically this is just `{ t with grid := (t.grid.clobber …).set … }`. -/
 def putNarrowAt (t : Term) (cp : Int) : Term :=
-  let g := (t.grid.clobber t.blocks t.cx t.cy).set t.cx t.cy (t.glyphCell cp)
-  if t.cx + 1 < t.w then { t with grid := g, cx := t.cx + 1, last := some (t.cx, t.cy, t.cx + 1, t.cy, t.pendingWrap) }
+  let cell := t.glyphCell cp
+  let g := t.grid
+  let t := { t with grid := Grid.empty }
+  let g := (g.clobber t.blocks t.cx t.cy).set t.cx t.cy cell
+  if t.cx + 1 < g.w then { t with grid := g, cx := t.cx + 1, last := some (t.cx, t.cy, t.cx + 1, t.cy, t.pendingWrap) }
   else { t with grid := g, pendingWrap := t.modes.autoMargin, last := some (t.cx, t.cy, t.cx, t.cy, t.modes.autoMargin) }
 
 def putNarrow (t : Term) (cp : Int) : Term :=
@@ -415,9 +424,12 @@ def putNarrow (t : Term) (cp : Int) : Term :=
     t.putNarrowAt cp
 
 def putWideAt (t : Term) (cp : Int) : Term :=
-  let g := (t.grid.clobber t.blocks t.cx t.cy).set t.cx t.cy (t.glyphCell cp)
-  let g := (g.clobber t.blocks (t.cx + 1) t.cy).set (t.cx + 1) t.cy { t.glyphCell cp with runes := [], cont := true }
-  if t.cx + 2 < t.w then { t with grid := g, cx := t.cx + 2, last := some (t.cx, t.cy, t.cx + 2, t.cy, t.pendingWrap) }
+  let cell := t.glyphCell cp
+  let g := t.grid
+  let t := { t with grid := Grid.empty }
+  let g := (g.clobber t.blocks t.cx t.cy).set t.cx t.cy cell
+  let g := (g.clobber t.blocks (t.cx + 1) t.cy).set (t.cx + 1) t.cy { cell with runes := [], cont := true }
+  if t.cx + 2 < g.w then { t with grid := g, cx := t.cx + 2, last := some (t.cx, t.cy, t.cx + 2, t.cy, t.pendingWrap) }
   else { t with grid := g, cx := t.cx + 1, pendingWrap := t.modes.autoMargin,
                 last := some (t.cx, t.cy, t.cx + 1, t.cy, t.modes.autoMargin) }
 
@@ -433,8 +445,10 @@ def putWide (t : Term) (cp : Int) : Term :=
       t.putWideAt cp
 
 def addMark (t : Term) (x y : Nat) (cp : Int) : Term :=
-  let c := t.grid.get x y
-  { t with grid := t.grid.set x y { c with runes := (if c.runes.isEmpty then [32] else c.runes) ++ [cp], stamp := t.blocks } }
+  let g := t.grid
+  let t := { t with grid := Grid.empty }
+  let c := g.get x y
+  { t with grid := g.set x y { c with runes := (if c.runes.isEmpty then [32] else c.runes) ++ [cp], stamp := t.blocks } }
 
 /-- positional rule: the glyph in the previous cell (the cell under the cursor when a wrap is pending) -/
 def putCombiningPos (t : Term) (cp : Int) : Term :=
